@@ -626,6 +626,49 @@ def _iterable_params(ctx: Ctx, fi: FuncInfo) -> set[str]:
     return out
 
 
+def _admits_iterable(ctx: Ctx, fi: FuncInfo, pname: str, depth: int = 0, _seen: frozenset = frozenset()) -> bool:
+    """`pname` of `fi` may be a one-shot iterable: by the function's own admission, or because the
+    function hands it on, as it came, to a btclib function that admits one (followed four calls deep)."""
+    if pname in _iterable_params(ctx, fi):
+        return True
+    if depth >= 4 or (fi.qualname, pname) in _seen:
+        return False
+    for c in own_nodes(fi.node):
+        if not isinstance(c, ast.Call):
+            continue
+        callee = ctx.prog.functions.get(ctx.resolve_call(fi, c) or "")
+        if callee is None or callee is fi:
+            continue
+        ca = callee.node.args
+        pos = ca.posonlyargs + ca.args
+        if pos and pos[0].arg in ("self", "cls"):
+            pos = pos[1:]
+        for i, a_ in enumerate(c.args):
+            if isinstance(a_, ast.Name) and a_.id == pname and i < len(pos) and not _rebound_before(fi, pname, c):
+                if _admits_iterable(ctx, callee, pos[i].arg, depth + 1, _seen | {(fi.qualname, pname)}):
+                    return True
+    return False
+
+
+def _handoffs(ctx: Ctx, fi: FuncInfo, pname: str) -> list[ast.Call]:
+    """Calls that hand `pname`, as it came, to a btclib function that may walk it."""
+    out = []
+    for c in own_nodes(fi.node):
+        if not isinstance(c, ast.Call) or call_name(c) in CONSUMERS:
+            continue
+        callee = ctx.prog.functions.get(ctx.resolve_call(fi, c) or "")
+        if callee is None or callee is fi:
+            continue
+        ca = callee.node.args
+        pos = ca.posonlyargs + ca.args
+        if pos and pos[0].arg in ("self", "cls"):
+            pos = pos[1:]
+        for i, a_ in enumerate(c.args):
+            if isinstance(a_, ast.Name) and a_.id == pname and i < len(pos) and _admits_iterable(ctx, callee, pos[i].arg, 1):
+                out.append(c)
+    return out
+
+
 def rule_single_pass(ctx: Ctx, rep: Report, rule: str, module_prefixes: tuple[str, ...], floor: int) -> None:
     """An Iterable can be walked once: a generator, a map, a reversed() is empty
     the second time. A parameter the function admits as an Iterable is therefore
@@ -636,8 +679,10 @@ def rule_single_pass(ctx: Ctx, rep: Report, rule: str, module_prefixes: tuple[st
     for q, fi in sorted(ctx.prog.functions.items()):
         if not any(q.startswith(p_) for p_ in module_prefixes):
             continue
-        for p_ in sorted(_iterable_params(ctx, fi)):
-            uses: list[ast.AST] = []
+        own = _iterable_params(ctx, fi)
+        handed = {p_ for p_ in fi.params() if p_ not in own and p_ not in ("self", "cls") and len(_handoffs(ctx, fi, p_)) >= 1 and _admits_iterable(ctx, fi, p_)}
+        for p_ in sorted(own | handed):
+            uses: list[ast.AST] = list(_handoffs(ctx, fi, p_))
             rebound_at = None
             for st in own_nodes(fi.node):
                 if isinstance(st, ast.Assign) and any(isinstance(t, ast.Name) and t.id == p_ for t in st.targets):
@@ -651,7 +696,7 @@ def rule_single_pass(ctx: Ctx, rep: Report, rule: str, module_prefixes: tuple[st
                 elif isinstance(x, ast.Starred) and isinstance(x.value, ast.Name) and x.value.id == p_:
                     uses.append(x)
             # uses after the parameter was rebound (to its own copy) walk the copy
-            live = [u for u in uses if rebound_at is None or u.lineno <= rebound_at]
+            live = sorted([u for u in uses if rebound_at is None or u.lineno <= rebound_at], key=lambda u: (u.lineno, getattr(u, "col_offset", 0)))
             n += 1
             # two uses in the two arms of one `if` are one use per path
             ok = len(live) <= 1 or _exclusive(fi, live)
